@@ -96,6 +96,7 @@ type Block struct {
 	Callsite []*Clause
 	Flags    map[string]bool // pure, lemma, trusted, overflow, may-diverge, panics-never, opaque, inline
 	Modifies []string
+	Fuel     int
 	// resolved
 	RecvName   string
 	RecvType   string // as written, e.g. "Set" or "*Set"
@@ -397,6 +398,12 @@ func parseBlocks(fset *token.FileSet, path string, src []byte, pkgPath string) (
 				return &Clause{Kind: kind, Text: expr, GoExpr: g, Loop: loop, File: path, Line: line}, nil
 			}
 			switch word {
+			case "fuel":
+				n, err := strconv.Atoi(strings.TrimSpace(rest))
+				if err != nil {
+					return nil, fmt.Errorf("%s:%d: bad fuel", path, line)
+				}
+				cur.Fuel = n
 			case "props":
 				cur.Props = append(cur.Props, strings.Fields(rest)...)
 			case "requires":
